@@ -241,7 +241,7 @@ func (f *Frame) execAlloc(cur *blockCur, x *ssa.Alloc) {
 	f.ghostInitAlloc(cur, t, ref)
 	f.setVal(x, Val{T: x.Type(), P: p})
 	if !escapes(x) {
-		c.localObjs = append(c.localObjs, localObj{ref: ref, keys: c.heapKeysOfPtr(p)})
+		c.localObjs = append(c.localObjs, localObj{ref: ref, keys: c.heapKeysOfPtr(p), alloc: x})
 	}
 }
 
@@ -396,6 +396,7 @@ func (f *Frame) execIndexAddr(cur *blockCur, x *ssa.IndexAddr) {
 	c := f.c
 	base := f.val(x.X)
 	idx := c.toIdx(f.val(x.Index))
+	c.noteIdxTerm(idx)
 	switch t := x.X.Type().Underlying().(type) {
 	case *types.Slice:
 		f.safety("index", cur, and(c.iLe(c.so.idxLit(0), idx), c.iLt(idx, fmt.Sprintf("(s_len %s)", base.S))), x, "")
@@ -795,7 +796,7 @@ func (f *Frame) execMakeMap(cur *blockCur, x *ssa.MakeMap) {
 	if f.callerFrame == nil && !escapes(x) {
 		// a map the function made and never hands to anyone: unknown code cannot touch it
 		_, kv, _ := f.mapKeys(mt)
-		c.localObjs = append(c.localObjs, localObj{ref: ref, keys: []HeapKey{kd, kv, kl}})
+		c.localObjs = append(c.localObjs, localObj{ref: ref, keys: []HeapKey{kd, kv, kl}, alloc: x})
 	}
 }
 
